@@ -440,7 +440,7 @@ def extract_cwrappers(src_text, calls):
             f.callees = []
             locals_h = {}
             while k < len(toks):
-                v = [t[1] for t in toks[k:k + 8]]
+                v = [t[1] for t in toks[k:k + 10]]
                 # std::string NAME(ARG);  -> vhandle NAME = STR_OF(ARG);
                 if v[:3] == ['std', '::', 'string'] and toks[k + 3][0] == 'id' and v[4] == '(':
                     p1 = match_close(toks, k + 4)
@@ -450,6 +450,34 @@ def extract_cwrappers(src_text, calls):
                     ptype[toks[k + 3][1]] = 'h'
                     k = p1 + 1
                     continue
+                # static std::vector<double> NAME ;     -> vhandle NAME = VEC_STATIC ;   a vector that survives between calls: its length on entry
+                #                                          (SVEC_LEN) is whatever an earlier call left
+                if v[0] == 'static' and v[1:7] == ['std', '::', 'vector', '<', 'double', '>'] and toks[k + 7][0] == 'id' and toks[k + 8][1] == ';':
+                    out += [('id', 'vhandle'), toks[k + 7], ('op', '='), ('id', 'VEC_STATIC')]
+                    ptype[toks[k + 7][1]] = 'h'
+                    f.vec_static = getattr(f, 'vec_static', []) + [toks[k + 7][1]]
+                    k += 8
+                    continue
+                if toks[k][0] == 'id' and toks[k][1] in getattr(f, 'vec_static', []) and v[1:5] == ['.', 'size', '(', ')']:
+                    out += [('id', 'SVEC_LEN')]
+                    k += 5
+                    continue
+                if toks[k][0] == 'id' and toks[k][1] in getattr(f, 'vec_static', []) and v[1:4] == ['.', 'resize', '(']:
+                    p1 = match_close(toks, k + 3)
+                    out += [('id', 'SVEC_LEN'), ('op', '='), ('op', '(')] + toks[k + 4:p1] + [('op', ')')]
+                    k = p1 + 1
+                    continue
+                # std::copy(&A[0], &A[E], NAME.begin())  -> NAME = VEC_COPYIN(SVEC_LEN, A, E)   (NAME keeps its length)
+                if v[:4] == ['std', '::', 'copy', '(']:
+                    p1 = match_close(toks, k + 3)
+                    a = split_args(toks[k + 4:p1])
+                    av = [[t_[1] for t_ in x] for x in a]
+                    if len(a) == 3 and av[0][0] == '&' and av[0][2:] == ['[', '0', ']'] and av[1][:3] == ['&', av[0][1], '['] and av[1][-1] == ']' \
+                            and av[2][0] in getattr(f, 'vec_static', []) and av[2][1:] == ['.', 'begin', '(', ')']:
+                        out += [('id', av[2][0]), ('op', '='), ('id', 'VEC_COPYIN'), ('op', '('), ('id', 'SVEC_LEN'), ('op', ','), ('id', av[0][1]), ('op', ',')] + a[1][3:-1] + [('op', ')')]
+                        k = p1 + 1
+                        continue
+                    raise ExtractionBreak('std::copy shape')
                 # std::vector<double> NAME ;            -> vhandle NAME = VEC_LOCAL ;
                 if v[:6] == ['std', '::', 'vector', '<', 'double', '>'] and toks[k + 6][0] == 'id' and toks[k + 7][1] == ';':
                     out += [('id', 'vhandle'), toks[k + 6], ('op', '='), ('id', 'VEC_LOCAL')]
